@@ -394,6 +394,9 @@ def _split_index_guarded(sub: ast.Subscript) -> bool:
     return False
 
 
+UNDECIDED_ORDERINGS: list[str] = []   # orderings of values of unknown element type outside the raw-value converters
+
+
 def lib_raises(full: str, call: ast.Call, facts: TypeFacts, raw_param: Optional[set] = None) -> list[str]:
     """Exceptions a library call raises because of input *content* (table T2)."""
     out: list[str] = []
@@ -422,7 +425,14 @@ def lib_raises(full: str, call: ast.Call, facts: TypeFacts, raw_param: Optional[
         mapped_to_str = isinstance(arg, ast.Call) and ast.unparse(arg.func) == "map" and arg.args \
             and ast.unparse(arg.args[0]) in ("str", "repr", "int", "float", "len")
         if not any(k.arg == "key" for k in call.keywords) and re.search(r"\bAny\b", t) and not mapped_to_str:
-            out.append("builtins.TypeError")
+            # a RAW parsed value (a parameter of an attrs converter) holds whatever the file says: ordering it can raise.  Elsewhere an
+            # element type that the type checker could not establish (a local list built from dict values) is unknown, not wrong:
+            # that site is an undecided clause, not a violation
+            names = {n.id for n in ast.walk(arg) if isinstance(n, ast.Name)} if arg is not None else set()
+            if raw_param and names & set(raw_param):
+                out.append("builtins.TypeError")
+            else:
+                UNDECIDED_ORDERINGS.append(f"`{ast.unparse(call)[:60]}` orders values whose element type is not established ({t[:40]})")
     # building a set (or dict keys) from values whose element type is not established hashes arbitrary objects
     # (only where the argument is a RAW parsed value: a parameter of an attrs converter, see Escape.raw_value_params)
     if full.split("|")[0] in ("builtins.set", "builtins.frozenset") and call.args and raw_param \
